@@ -234,7 +234,6 @@ func pointMesh(name string) modeling.Mesh {
 	return SymMesh(name, modeling.PointTopology, zz.Bound("V"), zz.Bound("V"), 4)
 }
 
-
 // bit-level snapshot: values are compared by their IEEE bit patterns, so an untouched cell is
 // syntactically identical before and after and costs no solver work.
 type bitSnap struct {
@@ -284,4 +283,3 @@ func sameBits(a, b bitSnap, tag string) {
 		}
 	}
 }
-
